@@ -22,11 +22,20 @@ func init() {
 			"the fault-free render gives the number of Write calls W; then for EVERY k in 1..W the render is repeated with a writer that fails the k-th call and all later ones; " +
 			"required: non-nil error and accepted bytes a prefix of the fault-free output; every run also compared with the Lean model; non-trivial = W >= 2; distinct by (template, data, k)"
 		cfg := GenCfg{MaxDepth: 3, MaxNodes: 12, Loops: true, Ctl: true, BreakN: true, LazyBreak: true, Switch: true, Include: true, Exit: true, Region: true, PreSuf: true, Mods: true, Ternary: true, Helpers: true}
-		nT := r.N(400, 12000)
+		nT := r.N(700, 16000)
 		var cases []*RCase
+		// second half: loop nests with break / continue / lazybreak only (a write after loop control is where an
+		// error is most easily taken for a control signal)
+		cfgCtl := GenCfg{MaxDepth: 3, MaxNodes: 12, Loops: true, Ctl: true, BreakN: true, LazyBreak: true, PreSuf: true}
 		for i := 0; i < nT; i++ {
-			base, _ := genCase(r, cfg)
-			base.Run()
+			gc := cfg
+			if i%2 == 1 {
+				gc = cfgCtl
+			}
+			base, _ := genCase(r, gc)
+			if !runWatched(r, base) {
+				break
+			}
 			if base.Panic != "" || base.PErr != "" || len(base.GoRes) != 1 {
 				cases = append(cases, base) // let runSessions report it
 				continue
